@@ -22,9 +22,9 @@ VARIABLES kind,    \* "new" | "edit"
           phase    \* "run" | "retry" | "done"
 vars == <<kind, pc, arc, side, failed, nfault, phase>>
 
-Initial(k) == IF k = "new" THEN "absent" ELSE "prev"
+Initial(k) == IF k = "edit" THEN "prev" ELSE "absent"   \* "new" and "copy" (deepcopy to a fresh path) start without archive
 
-Init == /\ kind \in {"new", "edit"}
+Init == /\ kind \in {"new", "edit", "copy"}
         /\ pc = <<"work", 1>>
         /\ arc = Initial(kind)
         /\ side = "absent"
@@ -75,7 +75,7 @@ Fault ==
 
 (* a subsequent run on the same path *)
 RetryOk ==
-  IF kind = "new" THEN arc \in {"absent", "new"}      \* create again, or the result is there
+  IF kind \in {"new", "copy"} THEN arc \in {"absent", "new"}      \* create again, or the result is there
   ELSE arc \in {"prev", "new"}                          \* the archive can be opened again
 Retry ==
   /\ phase = "retry"
